@@ -56,17 +56,32 @@ def describe(rec):
         " (verifies once Content-Length is put back to the client's: the header was regenerated after signing)" if o.get("clOnly") else "")
 
 
+def cause(rec):
+    """coarse class of a violating observation, so that the three replay files per rule show different causes"""
+    if rec["q"].get("conn", "none") != "none":
+        return "connection-header"
+    if rec["out"].get("clOnly"):
+        return "content-length-regenerated"
+    return "other"
+
+
 def handle(ctx, viols, tracefile):
+    todo = []
     for lineno, rules in viols:
-        rec = None
         for rule in rules:
             if rule.startswith("HARNESS_"):
                 raise V.Machinery("trace line %d of %s: %s" % (lineno, tracefile, rule))
-            if not rule.startswith(ctx.id + "_"):
-                continue
-            if rec is None:
-                rec = V.read_line(tracefile, lineno)
-            V.report(ctx, rule, rec, describe(rec), {"kind": "cell", "record": rec})
+            if rule.startswith(ctx.id + "_"):
+                todo.append((lineno, rule))
+    # first one observation per (rule, cause), then the rest (lib/vcheck keeps three replay files per rule)
+    seen, first, rest = set(), [], []
+    for lineno, rule in todo:
+        rec = V.read_line(tracefile, lineno)
+        k = (rule, cause(rec))
+        (rest if k in seen else first).append((lineno, rule, rec))
+        seen.add(k)
+    for lineno, rule, rec in first + rest:
+        V.report(ctx, rule, rec, describe(rec), {"kind": "cell", "record": rec, "cause": cause(rec)})
 
 
 def validate(ctx, obs, label):
@@ -96,7 +111,7 @@ def run(ctx):
         gen = "Forward.Gen.cfg"
     # Leg G (+ the rules on the composed prediction of every emitted cell: invariant RulesHoldG)
     cells, n = V.leg_g(ctx, "ForwardGen", gen, "CELL", "cells.jsonl", workers=8)
-    sample, reps = (2600, 1) if quick else (0, 2)
+    sample, reps = (4000, 1) if quick else (0, 2)
     obs = os.path.join(ctx.scratch, "obs.ndjson")
     V.build_harness(ctx)
     t = time.time()
